@@ -7,6 +7,7 @@
 package main
 
 import (
+	"fmt"
 	"math"
 	"regexp"
 	"strconv"
@@ -147,7 +148,13 @@ func txAggregateOracle(c *catchInst, ds string, bits []int, where string, fails 
 		}
 	}
 	// the detail-level solution file as the CSV marshaller writes it: "Name, Value, UnitOfMeasure, <unit columns>"
-	if text, err := new(solcsv.DecisionVariableMarshaler).Marshal(sol); err == nil {
+	var text []byte
+	var err error
+	if panicked, what := protect(func() { text, err = new(solcsv.DecisionVariableMarshaler).Marshal(sol) }); panicked {
+		bad = "writing the detail-level CSV solution file panicked: " + what
+		err = fmt.Errorf("panicked")
+	}
+	if err == nil {
 		for li, line := range strings.Split(strings.TrimSpace(string(text)), "\n") {
 			if li == 0 {
 				continue
